@@ -35,6 +35,7 @@ class PoolGen:
         if weights:
             self.w.update(weights)
         self.captured = []
+        self.links = {}      # node -> wallet it was (probably) linked to
         self.cfg = cfg or {}
         # ticks of model time per second (1: whole seconds; 4: quarter seconds, validated with VipPoolTrace_fine.cfg)
         self.K = self.cfg.get("tick", 1)
@@ -180,14 +181,17 @@ class PoolGen:
         others = [n for n in NODES if n != node]
         op = {"op": "AddNode", "conn": k, "node": node, "altnode": self.r.choice(others)}
         self.emit(self.signed(op, acct, alter))
+        if alter is None:
+            self.links[node] = acct.rstrip("L")
 
     def withdraw(self, acct, alter=None, during=False):
         k = self.conn_for(self.r.choice(NODES))
         op = {"op": "Withdraw", "conn": k}
         if during:
             # the wallet (and another one) keep earning while the settlement is in progress
+            own = [n for n, a in sorted(self.links.items()) if a == acct] or NODES      # the wallet's own nodes keep being metered
             op["during"] = [({"acct": self.r.choice([acct, acct, self.r.choice(ACCTS)]), "amt": self.r.choice([5, 50, 500])}
-                             if self.r.random() < 0.5 else {"id": self.r.choice(NODES), "amt": self.r.choice([5, 50, -20])})
+                             if self.r.random() < 0.4 else {"id": self.r.choice(own + [self.r.choice(NODES)]), "amt": self.r.choice([5, 50, -20])})
                             for _ in range(self.r.choice([1, 2, 3]))]
         self.emit(self.signed(op, acct, alter))
 
@@ -436,7 +440,7 @@ class PoolGen:
         elif kind == "addnode":
             self.addnode(r.choice(self.accts), r.choice(NODES))
         elif kind == "withdraw":
-            self.withdraw(r.choice(self.accts), during=(not self.race and r.random() < 0.35))
+            self.withdraw(r.choice(self.accts), during=(not self.race and r.random() < 0.5))
         elif kind == "deposit":
             if not self.conf.get("raw"):     # (no contract, no deposits)
                 self.emit({"op": "Deposit", "acct": r.choice(ACCTS), "amt": r.choice([0, 10, 100, 1000])})
@@ -513,6 +517,7 @@ class PoolGen:
             # wallets shared from the start: two hosts on one wallet, a client on the wallet of one of its hosts
             for n, a in (("h1", "a1"), ("h2", "a1"), ("c1", "a2"), ("h3", "a2")):
                 self.emit({"op": "AddAccountNode", "acct": a, "id": n})
+                self.links[n] = a
         if r.random() < 0.5 and not self.conf.get("raw"):
             self.emit({"op": "Deposit", "acct": r.choice(ACCTS), "amt": r.choice([10, 100, 1000])})
         if self.race:
@@ -714,7 +719,7 @@ def nonce_race_script(seed, nbursts, driver, workdir):
         v += rnd.choice([1, 1, 2])
         k = rnd.choice([2, 4, 8, 8])
         reqs = [{"op": "Nonce", "ident": "x9", "v": v, "wallet": False} for _ in range(k)]
-        if b % 3 == 0:
+        if b % 3 == 2:      # (the driver starts every third burst's requests at the same instant: these)
             # racing copies of the very first request of an identity the store has never heard of
             reqs += [{"op": "Nonce", "ident": "y%d" % b, "v": v, "wallet": False} for _ in range(rnd.choice([2, 4, 8]))]
         if rnd.random() < 0.3:
